@@ -33,9 +33,17 @@ class Only:
         setattr(self._run, k, v)
 
     def ob(self, rule, instance, ok, detail=None, site=None, key=None):
-        if any(n in (key or "") for n in self._needles):
+        k = key or ("%s|%s" % (rule, instance))
+        pos = [n for n in self._needles if not n.startswith("!")]
+        neg = [n[1:] for n in self._needles if n.startswith("!")]
+        if any(n in k for n in neg):
+            return ok               # excluded clause (e.g. another property's own known finding)
+        if not pos or any(n in k for n in pos):
             return self._run.ob(rule, instance, ok, detail, site, key)
         return ok
+
+    def anchor_lost(self, rule, what):
+        return self._run.anchor_lost(rule, what)
 
     def floor(self, rule, count, minimum, what=""):
         return True
